@@ -22,6 +22,10 @@ for sid in sorted(os.listdir(os.path.join(VERIF, "seeded"))):
     m["what_was_run"] = ("tools/eval_seeded.sh: demo.py on a clean scratch worktree (exit 0) and with patch.diff applied "
                          "(exit 1); repository tests (non-notebook selection) with the patch; quick checks of the listed "
                          "properties against a patched copy of /repo/hvsrpy via tools/with_patch.sh (HVMC_REPO)")
-    m["detected_by"] = [p for p, r in m["quick_checks_with_patch"].items() if r["exit"] == 1]
+    # a run that only produced C??:harness-error (the harness itself raised) is not a detection
+    m["detected_by"] = [p for p, r in m["quick_checks_with_patch"].items() if r["exit"] == 1 and
+                        any("harness-error" not in k for k in r["violation_keys"].split())]
+    m["harness_errors_only"] = [p for p, r in m["quick_checks_with_patch"].items() if r["exit"] == 1 and
+                                p not in m["detected_by"]]
     json.dump(m, open(os.path.join(d, "meta.json"), "w"), indent=1)
     print(sid, "detected by", m["detected_by"])
